@@ -5,6 +5,17 @@ HERE = os.path.dirname(os.path.dirname(os.path.abspath(__file__)))
 ids = [json.loads(l)["id"] for l in open(os.path.join(HERE, "properties.jsonl"))]
 
 CLAIMS = {
+ "C01": dict(
+   text="Every OpenFlow 1.0 codec class of libopenflow_01 (22 message types, actions, queue properties, statistics bodies, "
+        "ofp_match, ofp_phy_port) has contracts generated from layout tables transcribed from openflow.h: pack() equals the "
+        "specified layout (field order, widths, padding, type code, length field), len(obj) equals the byte count, decoding "
+        "consumes exactly that many bytes, yields an equal object, and re-encoding reproduces the bytes - discharged for all "
+        "field values / payloads / wildcard words by SMT on VCs generated from the real functions' ASTs. Lists (actions, ports, "
+        "queues, stats entries) are proved for fixed lengths 0..2 only (reported as bounded). Nicira extensions: bounded stand-in.",
+   note="trusted: pyvc encoding of Python semantics, z3/cvc5, struct axioms, layout tables transcribed from memory of openflow.h "
+        "(cross-checked against its sizeof asserts). List lengths > 2 and the Nicira module are not proved (bounded only). "
+        "Known finding: matches with unmet protocol prerequisites do not round-trip.",
+   ref="7/C01"),
  "C16": dict(
    text="Contracts on the real numeric kernels of pox/lib/addresses.py (IPAddr/IPAddr6/EthAddr construction from binary "
         "forms, byte order views, membership, mask<->prefix conversion, comparison/hash consistency, immutability) are "
